@@ -1,0 +1,15 @@
+//go:build verif
+
+// Contracts for the exovc verifier (/verif). Comment-only: with the tag off this file is not part
+// of the package, with the tag on it declares nothing.
+package keeper
+
+// C10: on mainnet chain ids parameters change only for the governance authority; a rejected request changes nothing.
+//@ define isMainnet(c) = hasprefix(c.chainid, g("utils.MainnetChainID"))
+
+//@ func (msgServer).UpdateParams
+//@   requires msg != nil
+//@   requires isMainnet(unwrap_ctx(goCtx)) && ms.Keeper.authority != msg.Authority
+//@   flag prune
+//@   ensures[C10.up.oracle] isMainnet(unwrap_ctx(goCtx)) && ms.Keeper.authority != old(msg.Authority) ==>
+//@        err != nil && state(unwrap_ctx(goCtx)) == old(state(unwrap_ctx(goCtx)))
